@@ -50,8 +50,11 @@ def make_scenarios(ctx, count):
         style = rng.choice(["session", "flood", "hijack", "noise", "icon"])
         if i % 12 == 5:
             style = "worn"
+        if i % 12 == 7:
+            style = "quick-only"
         resume = None
         worn = None
+        quick_only = None
         if style == "icon":
             # a session in which the icon (and other large properties) were fetched; the platform's icon is replaced
             # afterwards, at the latest right before the Reset
@@ -86,6 +89,19 @@ def make_scenarios(ctx, count):
                      "probe+query": [W.probe(net.own, y[0], net.own, y[1]), G.f_query(rng, net, m0)],
                      "discover+reset": [G.f_discover(rng, net, m=m0, tos=0, gen=3), W.reset(net.mappers[m0], tos=0)]}
             worn = (N, units[unit], xs, m0, unit)
+        elif style == "quick-only":
+            # before the Reset the interface was only ever enumerated (quick-discovery service), nobody ran a topology session;
+            # afterwards a mapper's first frame is a Query, an enumerator's quick discovery comes and goes, and another station
+            # opens its session
+            m0 = rng.randrange(3)
+            h = [G.f_discover(rng, net, m=m0, tos=1)] if rng.random() < 0.8 else []
+            for _ in range(rng.randint(1, 3)):
+                h.append(G.f_qlt(rng, net, m0, typ=rng.choice([0x0E, 0x11, 0x13]), off=0, tos=1))
+            if rng.random() < 0.3:
+                h.append(G.f_probe(rng, net, to_me=True))
+            if rng.random() < 0.3:
+                h.append(G.f_reset(rng, net, m=m0, tos=1))
+            quick_only = m0
         elif style == "flood":
             h = [G.f_discover(rng, net, m=0, tos=0)] + [G.f_probe(rng, net, to_me=True) for _ in range(hl)] + \
                 [G.f_query(rng, net, 0)] * rng.randint(0, 1)
@@ -101,6 +117,14 @@ def make_scenarios(ctx, count):
             h = G.session_history(rng, net, mtu, hl, p_mut=0.2)
         c = continuation(rng, net, mtu, rng.randint(10, 60), query_first=(style == "icon" and rng.random() < 0.6) or rng.random() < 0.05,
                          resume=resume)
+        if quick_only is not None:
+            m1 = rng.choice([quick_only, (quick_only + 1) % 3])
+            m2 = (m1 + rng.randint(1, 2)) % 3
+            pre = [G.f_query(rng, net, m1), G.f_reset(rng, net, m=rng.randrange(3), tos=1), G.f_discover(rng, net, m=m2, tos=0),
+                   G.f_emit(rng, net, m2, n=1)[0], G.f_query(rng, net, m2)]
+            if rng.random() < 0.3:
+                pre = pre[:1] + [G.f_qlt(rng, net, m1, typ=0x0E, off=0)] + pre[1:]
+            c = pre + c
         if worn:
             # what was observed before the long history is observed again, and asked for
             c = [G.f_discover(rng, net, m=worn[3], tos=0)] + [W.probe(net.own, es, net.own, rs) for es, rs in worn[2]] + \
@@ -212,5 +236,6 @@ def run(ctx):
     rep.need("pairs", c.get("pairs", 0), ctx.n(1000, 25000))
     rep.need("worn:2^16 (an exchange repeated about 2^16 times before the Reset)", c.get("worn:2^16", 0), 20)
     rep.need("worn:2^8", c.get("worn:2^8", 0), 10)
+    rep.need("style:quick-only", c.get("style:quick-only", 0), 50)
     rep.need("icon_switched_during_history", c.get("icon_switched_during_history", 0), 100)
     rep.need("style:icon (large properties fetched, icon replaced before the Reset)", c.get("style:icon", 0), 100)
